@@ -51,6 +51,12 @@ def run_case(case, ctx):
 		qsig_Q = H.write_sigfile(qs_path, qgen, Q[0], Q[1], [f'qid{i}' for i in range(len(qgen))])
 		rsig_R = H.write_sigfile(rs_path, rgen, R[0], R[1], [f'rid{i}' for i in range(len(rgen))])
 		out = os.path.join(d, 'out.csv')
+		if case.get('warmup'):
+			# earlier in the same process the very same genome files were processed with OTHER k-mer parameters
+			# (an ordinary all-vs-all run): nothing of that may be remembered
+			wspec = next(sp for sp in ((9, 'ATG'), (10, 'AC'), (7, 'TTG'), (11, 'ATGAC'), (6, 'GA')) if sp not in (tuple(Q), tuple(R), tuple(E) if E else None, (W.k, W.prefix)))
+			for paths_, tag in ((qpaths, 'q'), (rpaths, 'r')):
+				run_cli(['dist', '--square', '-o', os.path.join(d, f'warm_{tag}.csv'), '--no-progress', '-k', str(wspec[0]), '-p', wspec[1]] + [x for p_ in paths_ for x in ('-q', p_)])
 		if case['out_exists']:
 			open(out, 'w').write('SENTINEL\n')
 		kp = ['-k', str(E[0]), '-p', (E[1].lower() if case.get('lower_prefix') else E[1])] if E else []
@@ -180,10 +186,10 @@ def run_case(case, ctx):
 					got = [[int(v) for v in s[i]] for i in range(len(s))]
 				if got != expect[1]:
 					raise Violation('create_wrong_sigs', f'{desc}: created signatures differ from R-KMER under the database parameters', case)
-		classes = ['cmd=' + cmd, 'mismatch' if mismatch else 'consistent', 'explicit' if E else 'implicit',
+		classes = ['cmd=' + cmd, 'mismatch' if mismatch else 'consistent', 'explicit' if E else 'implicit'] + (['after_run_with_other_parameters'] if case.get('warmup') else []) + [
 		           'out_exists' if case['out_exists'] else 'out_absent']
 		joins = cmd not in ('dist_q_r', 'create_dbparams', 'dist_k_only', 'dist_p_only')
-		return {'nontrivial': bool(mismatch and joins), 'classes': classes}
+		return {'nontrivial': bool(mismatch and joins), 'classes': classes, 'expects_rejection': bool(mismatch)}
 	finally:
 		shutil.rmtree(d, ignore_errors=True)
 
@@ -225,7 +231,8 @@ def gen_case(draw, tier):
 		specE = list(draw(st.sampled_from(SPECS)))
 	return {'kind': 'cmd', 'world': w, 'specQ': specQ, 'specR': specR, 'specE': specE,
 	        'cmd': draw(st.sampled_from(COMMANDS)), 'out_exists': draw(st.booleans()),
-	        'lower_prefix': draw(st.sampled_from([False, False, True])), 'db_via_env': draw(st.sampled_from([False, False, True]))}
+	        'lower_prefix': draw(st.sampled_from([False, False, True])), 'db_via_env': draw(st.sampled_from([False, False, True])),
+	        'warmup': draw(st.sampled_from([False, True, False]))}
 
 
 def strategy(tier):
